@@ -145,8 +145,10 @@ def failing_theorems(pid, log):
 # ---------------------------------------------------------------------------------------------
 # running the two drivers
 
-def run_proc(cmd, data, timeout):
+def run_proc(cmd, data, timeout, linebuf=False):
     env = dict(os.environ)
+    if linebuf:
+        env["HDRV_LINEBUF"] = "1"
     env["ASAN_OPTIONS"] = "detect_leaks=0:abort_on_error=0:handle_abort=1:allocator_may_return_null=1"
     env["UBSAN_OPTIONS"] = "print_stacktrace=1"
     try:
@@ -195,7 +197,7 @@ def flatten(cases, stateful):
     return "\n".join(lines) + "\n"
 
 
-def run_side(cmd, cases, stateful, timeout):
+def run_side(cmd, cases, stateful, timeout, max_restarts=40):
     """Run all cases through one driver.  Survives crashes of the driver: the crashing case is
     recorded and the run resumes after it.  Returns per-case list of dicts
     {outs: [(main, extras)], crash: None|str, trailing: [...]}"""
@@ -214,7 +216,12 @@ def run_side(cmd, cases, stateful, timeout):
             need = c.nout + (1 if stateful else 0)
             got = outs[pos:pos + need]
             if len(got) < need:
-                # the driver died (or timed out) inside this case
+                # the driver died (or timed out) inside this case: run the case alone, line
+                # buffered, so that the output up to the crashing op is not lost with the buffer
+                rc1, out1, err1 = run_proc(cmd, flatten([c], stateful), min(timeout, 120), linebuf=True)
+                outs1, trailing1 = split_outputs(out1)
+                if len(outs1) < need and (rc1 != 0):
+                    got, trailing, rc, err = outs1, trailing1, rc1, err1
                 msg = "rc=%s " % rc + summarize_crash(err)
                 if stateful and got:
                     got = got[1:]
@@ -235,7 +242,7 @@ def run_side(cmd, cases, stateful, timeout):
                 results[start + done - 1]["trailing"] = trailing
             break
         start += done
-        if guard > 2000:
+        if guard > max_restarts:
             break
     for i, r in enumerate(results):
         if r is None:
@@ -280,21 +287,29 @@ def match_known(known, signature):
 
 # ---------------------------------------------------------------------------------------------
 
-def minimize_case(prop, case, hdrv, drv, is_bad):
-    """Delta-debug the op list of a stateful case while `is_bad` stays true."""
-    ops = list(case.ops)
-    if not prop.STATEFUL:
-        return case
+def shrink_ops(prop, hdrv, ops, failure, timeout):
+    """Delta debugging on the op list of a stateful case: keep removing chunks while the
+    implementation alone (harness oracles, sanitizers, Python oracle) still fails with the same
+    signature."""
+    want = failure["signature"]
+
+    def bad(cand):
+        c = Case(cand, "shrink")
+        res = run_side([hdrv, prop.ENGINE], [c], True, min(timeout, 60), max_restarts=1)[0]
+        return any(f["signature"] == want for f in evaluate_case(prop, c, res, None)
+                   if f["kind"] in ("oracle", "crash"))
+
+    cur = list(ops)
     n = 2
-    budget = 200
-    while len(ops) >= 2 and budget > 0:
-        chunk = max(1, len(ops) // n)
+    budget = 120
+    while len(cur) >= 2 and budget > 0:
+        chunk = max(1, len(cur) // n)
         reduced = False
-        for i in range(0, len(ops), chunk):
-            cand = ops[:i] + ops[i + chunk:]
+        for i in range(0, len(cur), chunk):
+            cand = cur[:i] + cur[i + chunk:]
             budget -= 1
-            if cand and is_bad(Case(cand, case.origin)):
-                ops = cand
+            if cand and bad(cand):
+                cur = cand
                 n = max(n - 1, 2)
                 reduced = True
                 break
@@ -303,8 +318,8 @@ def minimize_case(prop, case, hdrv, drv, is_bad):
         if not reduced:
             if chunk == 1:
                 break
-            n = min(len(ops), n * 2)
-    return Case(ops, case.origin)
+            n = min(len(cur), n * 2)
+    return cur
 
 
 def evaluate_case(prop, case, c_res, l_res):
@@ -479,6 +494,8 @@ def main():
             continue
         case = cases[ci]
         ops = case.ops[: f["op"] + 1] if stateful else [case.ops[min(f["op"], len(case.ops) - 1)]]
+        if stateful and hdrv and len(ops) > 3:
+            ops = shrink_ops(prop, hdrv, ops, f, timeout)
         path = write_replay("%s-%d-%d.json" % (pid, seed, len(violations)),
                             {"property": pid, "engine": prop.ENGINE, "ops": ops, "kind": f["kind"],
                              "signature": sig, "detail": f["detail"], "seed": seed, "tier": tier})
